@@ -22,6 +22,7 @@ ASSUMPTIONS = [
     'emitted source and from the runtime text of the working tree',
 ]
 
+DESC_KEYWORDS = {'ignore', 'ignored', 'class', 'let', 'in', 'where', 'override', 'grammar', 'extends', 'between', 'pass', 'requires', 'super'}
 API = {'zz9', 'start', 'Start', 'START', 'left', 'right', 'operator', 'parse', 'Infix', 'Prefix', 'Postfix', 'ParseError', 'PartialParseError', 'InputError', 'ParsedObject', 'ParsingRule',
        'visit', 'traverse', 'transform'}
 
@@ -61,6 +62,17 @@ class {C1}({p1}, {p2}) {{
 {R1} = /[a-z]+/
 ''', ['id=a', 'id=a,id=b', 'id=a,key=b', 'id=no', 'key=a', '', ('C1', ('id', 'no'), 'id=a'), ('C1', ('key', 'no'), 'key=a'),
       ('C1', ('key', 'no'), 'id=a'), ('C1', ('id', 'a'), 'id=a'), ('C1', ('id', 'no'), 'id=a,'), ('C1', ('id', 'no'), 'id=')]),
+    # a derived grammar: the module of a child has code of its own (context tables, inherited entries)
+    ('''grammar <G>a
+start = {R1}+
+{R1} = /[a-z]/
+ignore / +/
+----
+grammar <G>b extends <G>a
+{R2} = /[0-9]+/
+class {C1} {{ {f1}: {R2}; {f2}: ("." >> {R2})? }}
+override {R1} = {C1} | super.{R1}
+''', ['a', 'a 1 b', '12.5 x', '1.', '', 'a.1']),
 ]
 
 NEUTRAL = {'R1': 'Alpha', 'R2': 'Beta', 'R3': 'Gamma', 'C1': 'Kappa', 'C2': 'Lambda', 'T1': 'Tau', 'T2': 'Upsilon',
@@ -70,6 +82,19 @@ NEUTRAL = {'R1': 'Alpha', 'R2': 'Beta', 'R3': 'Gamma', 'C1': 'Kappa', 'C2': 'Lam
 
 def slots_of(template):
     return sorted(set(re.findall(r'\{([RCTfpv]\d)\}', template)))
+
+
+_uniq = [0]
+
+
+def compile_parts(text, **kw):
+    """a template can be a chain of grammars separated by '----' lines; {G} is a grammar-name prefix unique per compilation"""
+    _uniq[0] += 1
+    text = text.replace('<G>', f'c20g{_uniq[0]}x')
+    mod = None
+    for part in text.split('\n----\n'):
+        mod, _ = realrun.compile_grammar(part, **kw)
+    return mod, None
 
 
 def instantiate(template, names):
@@ -127,6 +152,30 @@ def show(v, inverse):
     return realrun.pval(v)
 
 
+def protocol(v, inverse):
+    """what the objects of a result do when used as values: hashing, equality with a rebuilt copy, _asdict, repr"""
+    out = []
+    stack = [v]
+    seen = 0
+    while stack and seen < 6:
+        x = stack.pop()
+        if isinstance(x, (list, tuple)) and not hasattr(x, '_fields'):
+            stack.extend(x)
+        elif hasattr(x, '_fields') and hasattr(x, '_metadata'):
+            seen += 1
+            try:
+                h1 = hash(x)
+                y = x._replace()
+                ok = (y == x) and (hash(y) == h1) and (len({x, y}) == 1)
+                keys = tuple(inverse.get(k, k) for k in x._asdict())
+                repr(x)
+                out.append(('ok' if ok else 'inconsistent', keys))
+            except Exception as exc:      # noqa: BLE001
+                out.append(('raises', type(exc).__name__))
+            stack.extend(getattr(x, f) for f in x._fields)
+    return tuple(out)
+
+
 def outcome(mod, text, inverse, names=None):
     if isinstance(text, tuple):
         # the entry point of a parameterised class: C.parse(args)(text)
@@ -139,7 +188,7 @@ def outcome(mod, text, inverse, names=None):
         entry = mod.parse
     r, raw = realrun.run_real_api(entry, text, 0, True, limit=2.0, _retry=False)   # CPU-time limit; hangs here are the builtin-shadowing findings
     if r[0] == 'V':
-        return ('V', show(raw, inverse))
+        return ('V', show(raw, inverse), protocol(raw, inverse))
     if r[0] == 'P':
         return ('P', show(raw.partial_result, inverse), r[2])
     return r
@@ -159,7 +208,7 @@ def run(tier, seed, lean):
         # names that the family's own inline Python reads are the user's business, not the generator's
         own_python = set(re.findall(r'[A-Za-z_]\w*', ' '.join(re.findall(r'`([^`]*)`', template))))
         base_names = {s: NEUTRAL[s] for s in slots}
-        base_mod, _ = realrun.compile_grammar(instantiate(template, base_names), include_source=True)
+        base_mod, _ = compile_parts(instantiate(template, base_names), include_source=True)
         base = [outcome(base_mod, t, {}, base_names) for t in inputs]
         if len({b[0] for b in base}) >= 2:
             nontrivial += 1
@@ -172,7 +221,13 @@ def run(tier, seed, lean):
                 for k in (1, 2, 3, int(m.group(2)), int(m.group(2)) + 1):
                     temp_like.add(f'{m.group(1).lstrip("_")}{k}')
         runtime_locals = {n for n in ids if re.fullmatch(r'[a-z][a-z_]*', n)} - set(base_names.values())
+        stripped = set()
+        for n in ids:
+            m = re.fullmatch(r'_(?:try|parse|raise_error|matcher|function)_?(.+)', n)
+            if m and not m.group(1).startswith('_') and not m.group(1).isdigit():
+                stripped.add(m.group(1))
         pools = {
+            'generated function name without its prefix': stripped | {'ignored', 'anonymous_0_0', 'try_start'},
             'random identifier': {'q7x', 'Zed', 'snake_case_name', 'CamelCase', 'x', 'l1', 'O0', 'aA9'},
             'temporary-like': temp_like,
             'name used by generated code or runtime': {n for n in runtime_locals if not hasattr(builtins, n)},
@@ -188,7 +243,9 @@ def run(tier, seed, lean):
                 for slot in slots:
                     if name in base_names.values():
                         continue
-                    if tier == 'quick' and name not in always and rng.random() < 0.45:
+                    if name in DESC_KEYWORDS and not (name == 'ignored' and slot[0] in 'Cf'):
+                        continue      # words of the description language ('ignored' can still name a class or a field)
+                    if tier == 'quick' and name not in always and pool_name != 'generated function name without its prefix' and rng.random() < 0.45:
                         continue
                     names = dict(base_names)
                     names[slot] = name
@@ -200,7 +257,7 @@ def run(tier, seed, lean):
                     elif pool_name == 'expression constructor' and slot[0] in 'RCT':
                         klass = f'constructor-name:{name}'
                     try:
-                        mod, _ = realrun.compile_grammar(instantiate(template, names))
+                        mod, _ = compile_parts(instantiate(template, names))
                         got = [outcome(mod, t, inverse, names) for t in inputs]
                     except Exception as exc:      # noqa: BLE001
                         got = [('X-compile', type(exc).__name__)]
@@ -221,7 +278,7 @@ def run(tier, seed, lean):
             inverse = {v: base_names[k] for k, v in names.items()}
             evals += 1
             try:
-                mod, _ = realrun.compile_grammar(instantiate(template, names))
+                mod, _ = compile_parts(instantiate(template, names))
                 got = [outcome(mod, t, inverse, names) for t in inputs]
             except Exception as exc:      # noqa: BLE001
                 got = [('X-compile', type(exc).__name__, str(exc)[:60])]
